@@ -21,10 +21,11 @@ from core import enc_bool, enc_opt, enc_str_list
 
 PROPERTY = "C10"
 
-# CODE VARIANT FLAGS — the value that matches TODAY's code in /repo (see Model/Live.lean `Cfg`)
-BARE_BYPASS = 0   # 1: console.print()/log() without arguments call Console.line() and bypass the render hooks (F19)
-START_GUARD = 1   # 0: Progress.start() calls refresh() unprotected after installing hook / redirection / hidden cursor
-RESET_SHAPE = 1   # 0: stop() keeps _live_render._shape, so a later start() erases rows of finished output
+# CODE VARIANT FLAGS — the value that matches the code in /repo as it is now (see Model/Live.lean `Cfg`); all three defects of
+# rich 9.10.0 as found are repaired there (BARE_BYPASS: 0 is the repaired value; START_GUARD, RESET_SHAPE: 1 is the repaired value)
+BARE_BYPASS = 0   # 1: console.print()/log() without arguments call Console.line() and bypass the render hooks (F19, as found); 0: repaired, fix b373465
+START_GUARD = 1   # 0: as found, Progress.start() calls refresh() unprotected after installing hook / redirection / hidden cursor; 1: repaired, fix 4e4f7e5
+RESET_SHAPE = 1   # 0: as found, stop() keeps _live_render._shape, so a later start() erases rows of finished output; 1: repaired, fix b4577f9
 
 
 # ------------------------------------------------------------------------------------------------
@@ -681,8 +682,9 @@ MANIFEST = {
     "first row under the lines printed before it), cursor_visible_after_stop / stop_shows_cursor, shown_fits_of_crop, cleanup_on_exception "
     "(for EVERY fault predicate over render-call indices, every body, every raise position: hook depth, sys.stdout/sys.stderr proxies and "
     "restore slots, started flag and cursor visibility are restored and a body exception leaves the block), run_balanced. The theorems hold "
-    "for the repaired code variants; machine-checked witnesses (decide) show today's code breaks them: old_bare_print_leaves_remnant (F19), "
-    "old_progress_start_leaks, old_restart_erases_printed_lines, transient_frame_filling_screen_leaves_remnant. Tie: per-operation "
+    "for the repaired code variants, which are what /repo contains now; machine-checked witnesses (decide) show that rich 9.10.0 as found broke them: "
+    "old_bare_print_leaves_remnant (F19, before fix b373465), old_progress_start_leaks (before fix 4e4f7e5), old_restart_erases_printed_lines "
+    "(before fix b4577f9); transient_frame_filling_screen_leaves_remnant is the witness of the known finding that remains. Tie: per-operation "
     "comparison of the characters real Live/Progress/Status objects write (tokenised by the independent harness/term.py) with the model's "
     "terminal operations plus the control state, ~9k histories per quick run / ~250k thorough (bounded-exhaustive sessions over a per-kind "
     "alphabet, seeded random histories up to 40 operations with restarts and injected faults, with-blocks with an exception at every "
